@@ -886,6 +886,86 @@ pub async fn run(cx: &mut Ctx) {
             }
         }
     }
+    // ---- C08: SQL-level readers (SELECT * issued by a session): the rows must be a snapshot
+    // taken somewhere between the statement's invocation and its return
+    if p == "C08" {
+        for (ri, r) in stmts.iter().enumerate() {
+            let (Stmt::Select(q), Some(Outcome::Ok(rows)), Some(ret)) = (&r.stmt, &r.outcome, r.ret) else {
+                continue;
+            };
+            if q.count || !q.pred.0.is_empty() {
+                continue;
+            }
+            cx.stats.evaluations += 1;
+            let on_table = |s: &StmtRec| match &s.stmt {
+                Stmt::Insert { table, .. } | Stmt::Delete { table, .. } | Stmt::InsertSelect { table, .. } => *table == q.table,
+                Stmt::DropTable { name } => *name == q.table,
+                Stmt::CreateTable(d) => d.name == q.table,
+                _ => false,
+            };
+            let mut must = vec![];
+            let mut may = vec![];
+            for (i, s) in stmts.iter().enumerate() {
+                if i == ri || !on_table(s) || !matches!(s.outcome, Some(Outcome::Ok(_))) {
+                    continue;
+                }
+                if s.ret.is_some_and(|x| x < r.invoke) {
+                    must.push(i);
+                } else if s.invoke < ret {
+                    may.push(i);
+                }
+            }
+            if must.len() + may.len() > 14 {
+                cx.probe("too-many-statements-for-reader-search");
+                continue;
+            }
+            let (finals, exhausted) = reachable(&stmts, must, may, &base, true, true);
+            if exhausted {
+                cx.probe("serial-search-budget-exhausted");
+                continue;
+            }
+            let mut got = rows.clone();
+            got.sort();
+            let ok = finals.iter().any(|m| match m.tables.get(&q.table) {
+                Some((_, w)) => {
+                    let mut w = w.clone();
+                    w.sort();
+                    w == got
+                }
+                None => false,
+            });
+            if !ok {
+                let want: Vec<String> = finals
+                    .iter()
+                    .take(4)
+                    .map(|m| match m.tables.get(&q.table) {
+                        Some((_, w)) => {
+                            let mut w = w.clone();
+                            w.sort();
+                            format!("{}[{}]", w.len(), rows_brief(&w, 8))
+                        }
+                        None => "absent".into(),
+                    })
+                    .collect();
+                cx.violate(Violation::new(
+                    "C08",
+                    "sql-reader-snapshot-wrong",
+                    None,
+                    format!(
+                        "session {} SELECT * FROM {} (events {}..{}) returned {}[{}]; possible snapshots: {}",
+                        r.session,
+                        q.table,
+                        r.invoke,
+                        ret,
+                        got.len(),
+                        rows_brief(&got, 8),
+                        want.join(" | ")
+                    ),
+                ));
+            }
+            cx.probe("sql-reader-checked");
+        }
+    }
     if !bg_panics.is_empty() && cx.vio.is_empty() {
         // a panic in a background task (compactor, vacuum) or an operator task
         let m = &bg_panics[0];
